@@ -63,7 +63,19 @@ def judge_disable(old, rc, new, LIB):
         # variant B: the line stays, minus the entry: other tokens identical and in order
         if len(nl) == len(ol) and nl[:i] == ol[:i] and nl[i + 1:] == ol[i + 1:] and tokens(nl[i]) == rest and (rest or not nl[i].split(b'#')[0].strip()):
             ok = True
-    if not ok:
+    # the bytes in front of and behind the entry's line are the old ones exactly - including whether the last line of the file has a line feed:
+    # a foreign last line that had none must not gain one (when the entry's line WAS the last one, the file simply ends where the previous line ended)
+    if ok and (new or b'') != oldc:
+        keep = oldc.split(b'\n')
+        ends_nl = oldc.endswith(b'\n')
+        lastline_idx = len(ol) - 1
+        if not ends_nl and not any(i == lastline_idx and not [t for t in tokens(ol[i]) if t != LIB] for i in own_idx) and (new or b'').endswith(b'\n'):
+            ok = False
+            bad.append('unterminated_last_line_gained_a_line_feed')
+        if ends_nl and (new or b'') and not (new or b'').endswith(b'\n'):
+            ok = False
+            bad.append('final_line_feed_lost')
+    if not ok and not bad or (not ok and bad == ['own_entry_still_active_after_reported_success']):
         old_tok = [t for l in ol for t in tokens(l)]
         new_tok = [t for l in nl for t in tokens(l)]
         exp = list(old_tok)
